@@ -60,6 +60,7 @@ const (
 	AuthMalformed
 	AuthClose
 	AuthStreamEnd // </stream:stream>, and the TCP connection stays open
+	AuthSloppy    // <success/> that is not well-formed XML although a lenient parser would take it (unquoted attribute value)
 )
 
 const (
@@ -91,6 +92,7 @@ const (
 	BindForeignID // an IQ result with the payload, but for another request id
 	BindNoJid     // an IQ result whose <bind/> carries no JID: nothing was bound
 	BindForeignNS // the result is an <iq/> of another namespace, not a stanza of this stream
+	BindSloppy    // the right result, but not well-formed XML (an entity XML does not define; an unquoted attribute value)
 )
 
 const (
@@ -590,6 +592,8 @@ func (sc *SrvConn) handle(it *Item) {
 			sc.Close()
 		case AuthStreamEnd:
 			sc.Send("</stream:stream>")
+		case AuthSloppy:
+			sc.Send("<success xmlns='" + nsSASL + "' code=ok/>")
 		}
 	case el.Is(nsSM, "resume"):
 		sc.delay()
@@ -670,6 +674,12 @@ func (sc *SrvConn) handle(it *Item) {
 			sc.Send(fmt.Sprintf("<iq type='result' id='%s'><bind xmlns='%s'/></iq>", id, nsBind))
 		case BindForeignNS:
 			sc.Send(fmt.Sprintf("<iq xmlns='urn:example:not-xmpp' type='result' id='%s'><bind xmlns='%s'><jid>%s</jid></bind></iq>", id, nsBind, xmlEscape(sc.S.BoundJid)))
+		case BindSloppy:
+			if sc.Idx%2 == 0 {
+				sc.Send(fmt.Sprintf("<iq type='result' id='%s'><bind xmlns='%s'><jid>%s</jid><note>a&nbsp;b</note></bind></iq>", id, nsBind, xmlEscape(sc.S.BoundJid)))
+			} else {
+				sc.Send(fmt.Sprintf("<iq type=result id='%s'><bind xmlns='%s'><jid>%s</jid></bind></iq>", id, nsBind, xmlEscape(sc.S.BoundJid)))
+			}
 		}
 	case el.Local == "iq" && el.Child(nsSession, "session") != nil:
 		sc.delay()
